@@ -360,7 +360,7 @@ def cases(draw):
         forms.append({"name": nm, "dx": draw(st.integers(0, 200)), "dy": draw(st.integers(0, 200)),
                       "items": draw(items(len(alphabet), [f["name"] for f in forms]))})
     pages = [draw(items(len(alphabet), names)) for _ in range(draw(st.integers(1, 3)))]
-    fontname = draw(st.sampled_from(["Plain", "A&B", "F<1>", 'Q"x', "it's", "Ünï", "a&lt;b"]))
+    fontname = draw(st.sampled_from(["Plain", "A&B", "F<1>", 'Q"x', "it's", "Ünï", "a&lt;b", "Sale%Off", "100%%", "%s%d", "Half%", "{0}{x}", "a\\b"]))
     allchars = "".join(alphabet)
     sinks = ["str", "utf-8", "utf-16", "utf-16-le"]
     if output == "xml":
